@@ -15,7 +15,7 @@ SEQ = "/repo/crates/astria-sequencer/src/"
 # (check id, name, file, old text, new text)
 MUTATIONS = [
     ("C01", "c01-saturating-increase", SEQ + "accounts/state_ext.rs",
-     ".checked_add(amount)\n", ".map(|b| b.saturating_add(amount))\n"),
+     "                .checked_add(amount)\n", "                .saturating_add(amount)\n                .checked_add(0)\n"),
     ("C01", "c01-transfer-credits-twice", SEQ + "checked_actions/transfer.rs",
      "            .wrap_err(\"failed to increase destination account balance\")?;\n\n        Ok(())",
      "            .wrap_err(\"failed to increase destination account balance\")?;\n        if self.action.amount == 7 {\n            state\n                .increase_balance(&self.action.to, &self.action.asset, 1)\n                .await\n                .wrap_err(\"failed to increase destination account balance\")?;\n        }\n\n        Ok(())"),
@@ -52,7 +52,7 @@ MUTATIONS = [
      "        state_tx.clear_block_validator_updates();\n",
      "        if height % 2 == 0 {\n            state_tx.clear_block_validator_updates();\n        }\n"),
     ("C18", "c18-escrow-saturating-sub", SEQ + "ibc/state_ext.rs",
-     ".checked_sub(amount)", ".map(|b| b.saturating_sub(amount))"),
+     "            .checked_sub(amount)\n", "            .saturating_sub(amount)\n            .checked_sub(0)\n"),
     ("C18", "c18-refund-skips-escrow-debit", SEQ + "ibc/ics20_transfer.rs",
      "    if is_refund_source_zone(asset, source_port, source_channel) {\n        state\n            .decrease_ibc_channel_balance",
      "    if is_refund_source_zone(asset, source_port, source_channel) && amount != 1 {\n        state\n            .decrease_ibc_channel_balance"),
@@ -94,12 +94,17 @@ def main():
         if old not in text:
             print(f"{name}: PATTERN NOT FOUND", flush=True)
             continue
+        # evidence/ must describe the unchanged tree: keep the file aside while the check runs
+        evidence = os.path.join(ROOT, "evidence", f"{check}.json")
+        saved = open(evidence).read() if os.path.exists(evidence) else None
         open(path, "w").write(text.replace(old, new, 1))
         started = time.time()
         try:
             result = run(f"cd {ROOT} && ./check {check} quick")
         finally:
             open(path, "w").write(text)
+            if saved is not None:
+                open(evidence, "w").write(saved)
         lines = [l for l in (result.stdout + result.stderr).splitlines() if "violation signature" in l or "BUILD FAILED" in l or "error" in l[:6]]
         record = {
             "check": check,
